@@ -9,10 +9,10 @@ BEHAVIOURS = ["newer", "older", "same", "pre", "dev", "garbage", "notag", "list"
 PY = "/venv/bin/python"
 
 
-def run_case(behav, group, args, timeout=20, slow=0):
+def run_case(behav, group, args, timeout=20, slow=0, clock=None):
     t = time.time()
     try:
-        p = subprocess.run([PY, os.path.join(rt.VERIF, "harness", "updater_case.py"), rt.REPO, behav, group] + args, capture_output=True, text=True, timeout=timeout, env=dict(os.environ, VERIF_SLOW=str(slow or "")))
+        p = subprocess.run([PY, os.path.join(rt.VERIF, "harness", "updater_case.py"), rt.REPO, behav, group] + args, capture_output=True, text=True, timeout=timeout, env=dict(os.environ, VERIF_SLOW=str(slow or ""), VERIF_CLOCK=clock or ""))
     except subprocess.TimeoutExpired:
         return {"timeout": True, "wall": time.time() - t}
     wall = time.time() - t
@@ -67,18 +67,21 @@ def run(ctx):
         for b in ("older", "newer", "slow", "hang", "connerr", "garbage", "srv:stall_body"):
             plan.append((b, "main", ["info", w_sealed], 0, 1.4))
             plan.append((b, "debug", ["verify", w_alt], 11, 1.4))
+        plan = [c + (None,) for c in plan]
+        for b in ("hang", "late", "newer", "srv:stall_headers"):
+            plan.append((b, "main", ["info", w_sealed], 0, 0, "stopped"))
         # references without the checker
         refs = {}
-        for _, _, args, _, slow in plan:
+        for _, _, args, _, slow, _clock in plan:
             k = json.dumps([args, slow])
             if k not in refs:
                 refs[k] = run_case("none", "ref", args, slow=slow)
         with ThreadPoolExecutor(max_workers=12) as ex:
-            results = list(ex.map(lambda c: run_case(c[0], c[1], c[2], slow=c[4]), plan))
-        for (b, group, args, expexit, slow), res in zip(plan, results):
+            results = list(ex.map(lambda c: run_case(c[0], c[1], c[2], slow=c[4], clock=c[5]), plan))
+        for (b, group, args, expexit, slow, clock), res in zip(plan, results):
             evals += 1
             ref = refs[json.dumps([args, slow])]
-            desc = f"server behaviour {b!r}, {'ascmhl' if group == 'main' else 'ascmhl-debug'} {' '.join(os.path.basename(a) if a.startswith('/') else a for a in args)}" + (f" (the command itself takes {slow} s)" if slow else "")
+            desc = f"server behaviour {b!r}, {'ascmhl' if group == 'main' else 'ascmhl-debug'} {' '.join(os.path.basename(a) if a.startswith('/') else a for a in args)}" + (f" (the command itself takes {slow} s)" if slow else "") + (" (wall clock standing still)" if clock else "")
             rp = {"behaviour": b, "group": group, "args": [a.replace(base, "<base>") for a in args], "command_takes_seconds": slow}
             if res.get("timeout"):
                 fails.append({"what": f"{desc}: the process did not terminate within 20 s (the update check stalls the command)", "replay": rp})
